@@ -114,8 +114,11 @@ def variable_arg(I, x, as_object):
     """The differentiation variable given as a name or as a Variable object."""
     if not as_object:
         return SName(x)
-    v = I.instantiate(I.prog.classes["Variable"], [SName(x)], {})
-    return v
+    from ..interp import Raise, PathAbort
+    try:
+        return I.instantiate(I.prog.classes["Variable"], [SName(x)], {})
+    except Raise:
+        raise PathAbort()          # names the Variable constructor rejects are not Variables
 
 
 def route_post(I, res, emit, e, pt, x, props=("C03", "C06"), extract=None):
